@@ -34,7 +34,64 @@ pub fn direct_read_checks(ctx: &mut Ctx, font: &FontRef, origin: &str) {
     }
 }
 
-pub fn extra_seeds(_entries: &[Entry], _add: &mut dyn FnMut(usize, Value, &str)) {}
+/// Stand-alone subtables from font-test-data (the spec's worked examples and
+/// the IFT fixtures): (registered type name, bytes, origin).
+pub fn extra_byte_seeds() -> Vec<(&'static str, Vec<u8>, &'static str)> {
+    use font_test_data::{gdef, gpos, gsub, ift, layout};
+    let mut v: Vec<(&'static str, Vec<u8>, &'static str)> = vec![
+        ("ScriptList", layout::SCRIPTS.to_vec(), "td:SCRIPTS"),
+        ("Script", layout::SCRIPTS_AND_LANGUAGES.to_vec(), "td:SCRIPTS_AND_LANGUAGES"),
+        ("FeatureList", layout::FEATURELIST_AND_FEATURE.to_vec(), "td:FEATURELIST_AND_FEATURE"),
+        ("SinglePosFormat1", gpos::SINGLEPOSFORMAT1.to_vec(), "td:SINGLEPOSFORMAT1"),
+        ("SinglePosFormat2", gpos::SINGLEPOSFORMAT2.to_vec(), "td:SINGLEPOSFORMAT2"),
+        ("PairPosFormat1", gpos::PAIRPOSFORMAT1.to_vec(), "td:PAIRPOSFORMAT1"),
+        ("PairPosFormat2", gpos::PAIRPOSFORMAT2.to_vec(), "td:PAIRPOSFORMAT2"),
+        ("CursivePosFormat1", gpos::CURSIVEPOSFORMAT1.to_vec(), "td:CURSIVEPOSFORMAT1"),
+        ("MarkBasePosFormat1", gpos::MARKBASEPOSFORMAT1.to_vec(), "td:MARKBASEPOSFORMAT1"),
+        ("MarkLigPosFormat1", gpos::MARKLIGPOSFORMAT1.to_vec(), "td:MARKLIGPOSFORMAT1"),
+        ("MarkMarkPosFormat1", gpos::MARKMARKPOSFORMAT1.to_vec(), "td:MARKMARKPOSFORMAT1"),
+        ("SequenceContextFormat1", gpos::CONTEXTUALPOSFORMAT1.to_vec(), "td:CONTEXTUALPOSFORMAT1"),
+        ("SequenceContextFormat2", gpos::CONTEXTUALPOSFORMAT2.to_vec(), "td:CONTEXTUALPOSFORMAT2"),
+        ("SequenceContextFormat3", gpos::CONTEXTUALPOSFORMAT3.to_vec(), "td:CONTEXTUALPOSFORMAT3"),
+        ("SinglePosFormat1", gpos::VALUEFORMATTABLE.to_vec(), "td:VALUEFORMATTABLE"),
+        ("AnchorFormat1", gpos::ANCHORFORMAT1.to_vec(), "td:ANCHORFORMAT1"),
+        ("AnchorFormat2", gpos::ANCHORFORMAT2.to_vec(), "td:ANCHORFORMAT2"),
+        ("AnchorFormat3", gpos::ANCHORFORMAT3.to_vec(), "td:ANCHORFORMAT3"),
+        ("SingleSubstFormat1", gsub::SINGLESUBSTFORMAT1_TABLE.to_vec(), "td:SINGLESUBSTFORMAT1"),
+        ("SingleSubstFormat2", gsub::SINGLESUBSTFORMAT2_TABLE.to_vec(), "td:SINGLESUBSTFORMAT2"),
+        ("MultipleSubstFormat1", gsub::MULTIPLESUBSTFORMAT1_TABLE.to_vec(), "td:MULTIPLESUBSTFORMAT1"),
+        ("AlternateSubstFormat1", gsub::ALTERNATESUBSTFORMAT1_TABLE.to_vec(), "td:ALTERNATESUBSTFORMAT1"),
+        ("LigatureSubstFormat1", gsub::LIGATURESUBSTFORMAT1_TABLE.to_vec(), "td:LIGATURESUBSTFORMAT1"),
+        ("SequenceContextFormat1", gsub::CONTEXTUAL_SUBSTITUTION_FORMAT1.to_vec(), "td:CONTEXTUAL_SUBSTITUTION_FORMAT1"),
+        ("SequenceContextFormat2", gsub::CONTEXTUAL_SUBSTITUTION_FORMAT2.to_vec(), "td:CONTEXTUAL_SUBSTITUTION_FORMAT2"),
+        ("SequenceContextFormat3", gsub::CONTEXTUAL_SUBSTITUTION_FORMAT3.to_vec(), "td:CONTEXTUAL_SUBSTITUTION_FORMAT3"),
+        ("ReverseChainSingleSubstFormat1", gsub::REVERSECHAINSINGLESUBSTFORMAT1.to_vec(), "td:REVERSECHAINSINGLESUBSTFORMAT1"),
+        ("ClassDef", gdef::GLYPHCLASSDEF_TABLE.to_vec(), "td:GLYPHCLASSDEF_TABLE"),
+        ("AttachList", gdef::ATTACHLIST_TABLE.to_vec(), "td:ATTACHLIST_TABLE"),
+        ("LigCaretList", gdef::LIGCARETLIST_TABLE.to_vec(), "td:LIGCARETLIST_TABLE"),
+        ("CaretValueFormat3", gdef::CARETVALUEFORMAT3_TABLE.to_vec(), "td:CARETVALUEFORMAT3_TABLE"),
+        ("ClassDef", gdef::MARKATTACHCLASSDEF_TABLE.to_vec(), "td:MARKATTACHCLASSDEF_TABLE"),
+        ("Cmap4", font_test_data::cmap::repetitive_cmap4().as_slice().to_vec(), "td:repetitive_cmap4"),
+    ];
+    let ift_seeds: Vec<(&'static str, font_test_data::bebuffer::BeBuffer, &'static str)> = vec![
+        ("Ift", ift::simple_format1(), "td:ift::simple_format1"),
+        ("Ift", ift::u16_entries_format1(), "td:ift::u16_entries_format1"),
+        ("Ift", ift::feature_map_format1(), "td:ift::feature_map_format1"),
+        ("Ift", ift::codepoints_only_format2(), "td:ift::codepoints_only_format2"),
+        ("Ift", ift::features_and_design_space_format2(), "td:ift::features_and_design_space_format2"),
+        ("Ift", ift::child_indices_format2(), "td:ift::child_indices_format2"),
+        ("Ift", ift::custom_ids_format2(), "td:ift::custom_ids_format2"),
+        ("Ift", ift::string_ids_format2(), "td:ift::string_ids_format2"),
+        ("Ift", ift::table_keyed_format2(), "td:ift::table_keyed_format2"),
+        ("TableKeyedPatch", ift::table_keyed_patch(), "td:ift::table_keyed_patch"),
+        ("TableKeyedPatch", ift::noop_table_keyed_patch(), "td:ift::noop_table_keyed_patch"),
+        ("GlyphKeyedPatch", ift::glyph_keyed_patch_header(), "td:ift::glyph_keyed_patch_header"),
+    ];
+    for (n, b, o) in ift_seeds {
+        v.push((n, b.as_slice().to_vec(), o));
+    }
+    v
+}
 
 pub fn run_special(_ctx: &mut Ctx) {}
 
